@@ -1,6 +1,314 @@
 #!/usr/bin/env python3
 """Translator: /repo/src/json/config.json (+ the implementation's own tokenised patterns, dumped
-through the harness) -> lean/SC/Gen/*.lean.  Rewrites a file only when its content changes."""
+through the harness `lex` op, + three source anchors) -> lean/SC/Gen/*.lean.
+Rewrites a file only when its content changes (keeps `lake build` incremental).
+Fails loudly (exit 1) when an anchor is missing or a construct is not translatable."""
+import hashlib
+import json
+import os
+import re
 import sys
+from decimal import Decimal
+
+ROOT = os.path.dirname(os.path.dirname(os.path.abspath(__file__)))
+sys.path.insert(0, ROOT)
+from tools import common as C  # noqa: E402
+
+REPO = C.REPO
+GEN = os.path.join(C.LEAN, "SC", "Gen")
+
+RULE_FN = {
+    "percent_calculator": "percentCalculator", "convert_timezone": "convertTimezone", "time_with_timezone": "timeWithTimezone",
+    "to_unixtime": "toUnixtime", "from_unixtime": "fromUnixtime", "convert_money": "convertMoney", "number_on": "numberOn",
+    "number_of": "numberOf", "number_off": "numberOff", "division_cleanup": "divisionCleanup", "duration_parse": "durationParse",
+    "as_duration": "asDuration", "to_duration": "toDuration", "at_date": "atDate", "combine_durations": "combineDurations",
+    "find_numbers_percent": "findNumbersPercent", "find_total_from_percent": "findTotalFromPercent",
+    "number_type_convert": "numberTypeConvert", "dynamic_type_convert": "dynamicTypeConvert", "small_date": "smallDate",
+}
+DUR_KIND = {"Second": 0, "Minute": 1, "Hour": 2, "Day": 3, "Week": 4, "Month": 5, "Year": 6}
+
+
+def die(msg):
+    print("TRANSLATOR FAILURE:", msg)
+    sys.exit(1)
+
+
+def lstr(s):
+    out = ['"']
+    for ch in s:
+        if ch == '"':
+            out.append('\\"')
+        elif ch == "\\":
+            out.append("\\\\")
+        elif ch == "\n":
+            out.append("\\n")
+        elif ch == "\r":
+            out.append("\\r")
+        elif ch == "\t":
+            out.append("\\t")
+        elif ord(ch) < 32 or ord(ch) in (0x200e, 0x200f, 0x202a, 0x202b, 0x202c, 0x202d, 0x202e):
+            out.append("\\u%04x" % ord(ch))
+        else:
+            out.append(ch)
+    out.append('"')
+    return "".join(out)
+
+
+def lopt(s):
+    return "none" if s is None else f"(some {lstr(s)})"
+
+
+def llist(items):
+    return "[" + ", ".join(items) + "]"
+
+
+def lrat(dec_text):
+    """exact decimal text -> `(Num.ofRat neg num den)`"""
+    d = Decimal(dec_text)
+    neg = d < 0
+    n, den = abs(d).as_integer_ratio()
+    return f"(Num.ofRat {'true' if neg else 'false'} {n} {den})"
+
+
+def lfield(t):
+    f = t["f"]
+    n = lstr(t["name"])
+    if f == "TEXT":
+        return f"(.text {n} {lopt(t.get('extra'))})"
+    if f == "DYNAMIC_TYPE":
+        return f"(.dyn {n} {lopt(t.get('extra'))})"
+    if f == "GROUP":
+        return f"(.group {n} {llist([lstr(x) for x in t['items']])})"
+    if f == "TYPE_GROUP":
+        return f"(.typeGroup {llist([lstr(x) for x in t['types']])} {n})"
+    simple = {"DATE_TIME": "dateTime", "DATE": "date", "TIME": "time", "MONEY": "money", "PERCENT": "percent",
+              "NUMBER": "number", "MONTH": "month", "DURATION": "duration", "TIMEZONE": "timezone"}
+    if f in simple:
+        return f"(.{simple[f]} {n})"
+    die(f"unknown field type {f}")
+
+
+def bits_to_rat(hexbits):
+    b = int(hexbits, 16)
+    neg = b >> 63
+    b &= (1 << 63) - 1
+    ex = b >> 52
+    man = b & ((1 << 52) - 1)
+    if ex == 0x7ff:
+        die("non-finite number in a pattern token")
+    if ex == 0:
+        num, den = man, 1 << 1074
+    else:
+        m = man + (1 << 52)
+        e = ex - 1075
+        num, den = (m << e, 1) if e >= 0 else (m, 1 << -e)
+    return f"(Num.ofRat {'true' if neg else 'false'} {num} {den})"
+
+
+def ltok(t):
+    k = t["t"]
+    if k == "F":
+        return f"(.field {lfield(t)})"
+    if k == "T":
+        return f"(.text {lstr(t['s'])})"
+    if k == "O":
+        return f"(.op (Op.ofChar (Char.ofNat {ord(t['c'])})))"
+    if k == "N":
+        return f"(.item (.number {bits_to_rat(t['v'])} .decimal))"
+    if k == "P":
+        return f"(.item (.percent {bits_to_rat(t['v'])}))"
+    if k == "Mo":
+        return f"(.month {t['m']})"
+    if k == "TZ":
+        return f"(.tz {lstr(t['name'])} {t['off']})"
+    die(f"pattern token kind {k} is not translatable: {t}")
+
+
+def linfo(ti):
+    tok = "none" if ti["tok"] is None else f"(some {ltok(ti['tok'])})"
+    return f"⟨{ti['s']}, {ti['e']}, {tok}, {lstr(ti['text'])}, true⟩"
+
+
+def write_if_changed(path, content):
+    os.makedirs(os.path.dirname(path), exist_ok=True)
+    if os.path.exists(path) and open(path, encoding="utf-8").read() == content:
+        return False
+    with open(path, "w", encoding="utf-8") as f:
+        f.write(content)
+    return True
+
+
+def rust_sorted(keys):
+    return sorted(keys, key=lambda k: k.encode("utf-8"))
+
+
+def anchors():
+    """the three lists read from Rust source; each must be found"""
+    src = open(os.path.join(REPO, "src/tokinizer/regex_tokinizer/mod.rs"), encoding="utf-8").read()
+    order = re.findall(r'\("(\w+)",\s+\w+_regex_parser\s+as RegexParser\)', src)
+    if len(order) < 5:
+        die("anchor TOKEN_REGEX_PARSER not found in regex_tokinizer/mod.rs")
+    src = open(os.path.join(REPO, "src/tokinizer/rule_tokinizer/mod.rs"), encoding="utf-8").read()
+    fns = re.findall(r'm\.insert\("(\w+)"\.to_string\(\),\s+(\w+) as ExpressionFunc\)', src)
+    if len(fns) < 5:
+        die("anchor RULE_FUNCTIONS not found in rule_tokinizer/mod.rs")
+    for name, fn in fns:
+        if name != fn:
+            die(f"RULE_FUNCTIONS maps {name} to a different function {fn}: the model keys rule behaviour by name")
+        if name not in RULE_FN:
+            die(f"rule function {name} has no model")
+    src = open(os.path.join(REPO, "src/smartcalc.rs"), encoding="utf-8").read()
+    m = re.search(r"impl Default for SmartCalc \{(.*?)\n\}\n", src, re.S)
+    if not m:
+        die("anchor `impl Default for SmartCalc` not found")
+    date_rules = {}
+    for lang, body in re.findall(r'set_date_rule\("(\w+)", vec!\[(.*?)\]\)', m.group(1), re.S):
+        date_rules[lang] = re.findall(r'"([^"]*)"\.to_string\(\)', body)
+    if not date_rules:
+        die("default date patterns not found in SmartCalc::default")
+    return order, [n for n, _ in fns], date_rules
+
+
+def main():
+    cfg_path = os.path.join(REPO, "src/json/config.json")
+    raw = open(cfg_path, encoding="utf-8").read()
+    cfg = json.loads(raw, parse_float=lambda s: s, parse_int=lambda s: s)
+    order, fn_names, date_rules = anchors()
+    digest = hashlib.sha256((raw + json.dumps([order, fn_names, date_rules])).encode()).hexdigest()
+
+    # ---- the implementation's own tokenised patterns ------------------------------------------
+    pats = []   # (lang, text)
+    langs = rust_sorted(cfg["languages"].keys())
+    for lang in langs:
+        L = cfg["languages"][lang]
+        for rname in rust_sorted(L["rules"].keys()):
+            for p in L["rules"][rname]["rules"]:
+                pats.append((lang, p))
+        for p in date_rules.get(lang, []):
+            pats.append((lang, p))
+    for fam in cfg["types"]:
+        for it in fam["items"]:
+            for p in it["parse"]:
+                pats.append(("en", p))
+    if not os.path.exists(C.SCIMPL):
+        die("harness binary missing (build it first)")
+    res = C.run_impl([{"op": "lex", "lang": l, "text": p} for l, p in pats] + [{"op": "fingerprint", "full": True}])
+    lexed = {}
+    for (l, p), r in zip(pats, res):
+        if "toks" not in r:
+            die(f"the implementation could not tokenise pattern {p!r} ({l}): {r}")
+        lexed[(l, p)] = r["toks"]
+    fp = res[-1].get("text", "")
+    impl_rates = dict(re.findall(r"^rate (\w+) (\d+)$", fp, re.M))
+
+    out = []
+    out.append("/- GENERATED by tools/gen_config.py from /repo/src/json/config.json — do not edit.")
+    out.append(f"   input sha256: {digest} -/")
+    out.append("import SC.Types\nnamespace SC.Gen\nopen SC\nvariable (F : Type) [Num F]\n")
+
+    # currencies
+    cur_rows = []
+    for code in rust_sorted(cfg["currencies"].keys()):
+        c = cfg["currencies"][code]
+        cur_rows.append(f"  ({lstr(code.lower())}, ⟨{lstr(c['code'])}, {lstr(c['symbol'])}, {str(c['symbolOnLeft']).lower()}, "
+                        f"{str(c['spaceBetweenAmountAndSymbol']).lower()}, {c['decimalDigits']}⟩)")
+    out.append("def currencies : List (String × Currency) := [\n" + ",\n".join(cur_rows) + "]\n")
+    lower_codes = {k.lower(): v["code"] for k, v in cfg["currencies"].items()}
+    alias_rows = []
+    for a in rust_sorted(cfg["currency_alias"].keys()):
+        tgt = cfg["currency_alias"][a]
+        if tgt in lower_codes:     # config.get_currency(value): exact key lookup in the lower-cased table
+            alias_rows.append(f"({lstr(a)}, {lstr(tgt)})")
+    out.append("def currencyAlias : List (String × String) := " + llist(alias_rows) + "\n")
+    rate_rows = []
+    rate_items = []
+    for k in cfg["currency_rates"].keys():
+        if k in lower_codes:
+            rate_items.append((lower_codes[k], cfg["currency_rates"][k]))
+    for code, txt in sorted(rate_items, key=lambda kv: kv[0].encode()):
+        # cross-check: serde_json's reading of the decimal text == the correctly rounded double
+        import struct
+        want = struct.unpack(">Q", struct.pack(">d", float(Decimal(txt))))[0]
+        if code in impl_rates and int(impl_rates[code]) != want:
+            die(f"rate {code}: the implementation read {txt} as bits {int(impl_rates[code]):x}, correctly rounded is {want:x}")
+        rate_rows.append(f"({lstr(code)}, {lrat(txt)})")
+    out.append("def rates : List (String × F) := " + llist(rate_rows) + "\n")
+    zone_rows = [f"({lstr(z)}, {cfg['timezones'][z]})" for z in rust_sorted(cfg["timezones"].keys())]
+    out.append("def zones : List (String × Int) := " + llist(zone_rows) + "\n")
+
+    # units
+    fam_rows = []
+    for fam in sorted(cfg["types"], key=lambda f: f["name"].encode()):
+        items = []
+        for it in sorted(fam["items"], key=lambda i: int(i["index"])):
+            if it.get("upgrade_code") is None or it.get("downgrade_code") is None:
+                continue
+            parse = llist([llist([linfo(t) for t in lexed[("en", p)]]) for p in it["parse"]])
+            dig = "none" if it.get("decimal_digits") is None else f"(some {it['decimal_digits']})"
+            rnd = "none" if it.get("use_fract_rounding") is None else f"(some {str(it['use_fract_rounding']).lower()})"
+            rz = "none" if it.get("remove_fract_if_zero") is None else f"(some {str(it['remove_fract_if_zero']).lower()})"
+            items.append(f"    ⟨{lstr(fam['name'])}, {it['index']}, {lstr(it['format'])}, {parse}, {lstr(it['upgrade_code'])}, "
+                         f"{lstr(it['downgrade_code'])}, {llist([lstr(n) for n in it['names']])}, {dig}, {rnd}, {rz}⟩")
+        fam_rows.append(f"  ({lstr(fam['name'])}, [\n" + ",\n".join(items) + "])")
+    out.append("def units : List (String × List (UnitItem F)) := [\n" + ",\n".join(fam_rows) + "]\n")
+    fam_index = {f["name"]: {int(i["index"]) for i in f["items"] if i.get("upgrade_code") is not None and i.get("downgrade_code") is not None} for f in cfg["types"]}
+    br_rows = []
+    for b in cfg["type_conversion"]:
+        s, t = b["source"], b["target"]
+        if int(s["index"]) in fam_index.get(s["name"], ()) and int(t["index"]) in fam_index.get(t["name"], ()):
+            br_rows.append(f"⟨{lstr(s['name'])}, {s['index']}, {lstr(t['name'])}, {t['index']}, {lstr(b['to_source_calculation'])}, {lstr(b['to_target_calculation'])}⟩")
+    out.append("def bridges : List Bridge := " + llist(br_rows) + "\n")
+
+    # languages
+    lang_defs = []
+    for lang in langs:
+        L = cfg["languages"][lang]
+        consts = llist([f"({lstr(k)}, {L['constant_pair'][k]})" for k in rust_sorted(L["constant_pair"].keys()) if 1 <= int(L["constant_pair"][k]) <= 11])
+        groups = llist([f"({lstr(g)}, {llist([lstr(w) for w in L['word_group'][g]])})" for g in rust_sorted(L["word_group"].keys())])
+        rules = []
+        for rname in rust_sorted(L["rules"].keys()):
+            if rname not in fn_names:
+                continue
+            plist = llist([llist([linfo(t) for t in lexed[(lang, p)]]) for p in L["rules"][rname]["rules"]])
+            rules.append(f"    ⟨.{RULE_FN[rname]}, {plist}⟩")
+        if lang in date_rules:
+            plist = llist([llist([linfo(t) for t in lexed[(lang, p)]]) for p in date_rules[lang]])
+            rules.append(f"    ⟨.smallDate, {plist}⟩")
+        durs = llist([f"⟨{lstr(d['count'])}, {lstr(d['format'])}, {DUR_KIND[d['duration_type']]}⟩" for d in L["format"]["duration"]])
+        datef = llist([f"({lstr(k)}, {lstr(L['format']['date'][k])})" for k in rust_sorted(L["format"]["date"].keys())])
+        months = [["", ""] for _ in range(12)]
+        for name in rust_sorted(L["long_months"].keys()):
+            n = int(L["long_months"][name])
+            if 1 <= n <= 12:
+                months[n - 1][1] = name
+        for name in rust_sorted(L["short_months"].keys()):
+            n = int(L["short_months"][name])
+            if 1 <= n <= 12:
+                months[n - 1][0] = name
+        mrows = llist([f"({lstr(s)}, {lstr(l)})" for s, l in months])
+        lang_defs.append(f"def lang_{lang} : Lang F := {{\n  name := {lstr(lang)},\n  constants := {consts},\n  groups := {groups},\n"
+                         f"  rules := [\n" + ",\n".join(rules) + f"],\n  durFmts := {durs},\n  dateFmts := {datef},\n  months := {mrows} }}\n")
+    out.extend(lang_defs)
+    out.append("/-- `SmartCalc::default()` -/")
+    out.append("def cfg : Cfg F := {\n  currencies := currencies, currencyAlias := currencyAlias, rates := rates F, zones := zones,\n"
+               "  units := units F, bridges := bridges,\n  langs := " + llist([f"lang_{l} F" for l in langs]) + " }\n")
+    out.append("end SC.Gen\n")
+    changed = write_if_changed(os.path.join(GEN, "Config.lean"), "\n".join(out))
+
+    # ---- plain tables for kernel-checked data obligations ------------------------------------
+    t = []
+    t.append("/- GENERATED by tools/gen_config.py — plain tables for data obligations. -/")
+    t.append("namespace SC.Gen\n")
+    t.append("/-- tokens per configured rule / unit / date pattern (as the implementation tokenises them) -/")
+    t.append("def patternLengths : List Nat := " + llist([str(len(lexed[k])) for k in pats]) + "\n")
+    t.append("/-- zone offsets in minutes -/")
+    t.append("def zoneOffsets : List Int := " + llist([str(cfg["timezones"][z]) for z in rust_sorted(cfg["timezones"].keys())]) + "\n")
+    t.append("/-- parser order of TOKEN_REGEX_PARSER -/")
+    t.append("def parserOrder : List String := " + llist([lstr(x) for x in order]) + "\n")
+    t.append("end SC.Gen\n")
+    changed |= write_if_changed(os.path.join(GEN, "Tables.lean"), "\n".join(t))
+    print("translator ok;", "files updated" if changed else "no change", f"({len(pats)} patterns, {len(cur_rows)} currencies)")
+
+
 if __name__ == "__main__":
-    sys.exit(0)
+    main()
